@@ -259,7 +259,7 @@ def iso_case(n_first, route, d_idx):
             sqlfluff.lint(text_a, config=cfg)
         elif route == "lint_paths":
             lin.lint_paths((os.path.join(d, f"a{d_idx}.sql"),))
-        elif route == "lint_paths_one_run":
+        elif route in ("lint_paths_one_run", "lint_paths_two_workers"):
             pass   # handled below: decorated files and the plain file go through ONE lint_paths call
         elif route == "child_config":
             child = cfg.make_child_from_path(os.path.join(d, f"a{d_idx}.sql"))
@@ -273,9 +273,18 @@ def iso_case(n_first, route, d_idx):
         problems.append(f"the shared configuration changed in section(s) {sorted(set(ch))}")
     if _plain(lin.config) != before:
         problems.append("the linter's configuration changed")
-    if route == "lint_paths_one_run":
-        res = lin.lint_paths(tuple([os.path.join(d, f"a{d_idx}.sql")] * min(n_first, 1) + [os.path.join(d, "b.sql")]))
+    if route in ("lint_paths_one_run", "lint_paths_two_workers"):
+        a_path = os.path.join(d, f"a{d_idx}.sql")
+        if route == "lint_paths_two_workers":
+            lin.allow_process_parallelism = False   # worker THREADS: same ParallelRunner._apply route, no child processes
+        res = lin.lint_paths(tuple([a_path] * min(n_first, 1) + [os.path.join(d, "b.sql")]), processes=2 if route == "lint_paths_two_workers" else 1)
         got_b = [_viol(f) for ld in res.paths for f in ld.files if f.path.endswith("b.sql")][0]
+        if n_first:
+            # the decorated file itself: its inline settings govern it, exactly as when it is linted alone
+            got_a = [_viol(f) for ld in res.paths for f in ld.files if f.path == a_path][0]
+            alone = [_viol(f) for ld in Linter(config=FluffConfig(overrides={"dialect": "ansi"})).lint_paths((a_path,)).paths for f in ld.files][0]
+            if got_a != alone:
+                problems.append(f"the decorated file reports {got_a}, linted alone it reports {alone}")
     else:
         got_b = _viol(lin.lint_string(PLAIN, fname="b.sql"))
     if got_b != fresh_b:
@@ -283,7 +292,7 @@ def iso_case(n_first, route, d_idx):
     return problems
 
 
-ROUTES = ["parse_string", "lint_string", "simple_api", "lint_paths", "child_config", "copy", "lint_paths_one_run"]
+ROUTES = ["parse_string", "lint_string", "simple_api", "lint_paths", "child_config", "copy", "lint_paths_one_run", "lint_paths_two_workers"]
 
 
 def make_iso():
